@@ -198,10 +198,10 @@ class PackStep(Instance):
     def __init__(self, name, raw_group):
         Instance.__init__(self, name)
         self.raw = raw_group
-        self.required_witnesses = ("pack_emitted", "stored_raw", "stored_compressed")
+        self.required_witnesses = ("pack_emitted", "stored_raw", "stored_compressed", "dedup_in_open_pack")
         self.bounds = {"group": "raw group (id 3)" if raw_group else "LZ group (id 20, reference already written)",
                        "pre-state": "P in {0,1} full packs already written, pending deltas one short of a full pack (invariant: pending ids consecutive, id i at entry (i-1) mod 50 / i mod 50)",
-                       "new segments": "1..2 with symbolic 2-byte data", "zstd": "lossless stub: token / n+1 / compress_bound(n) frame lengths"}
+                       "new segments": "1..3 with symbolic 2-byte data (the first fills the pack, the others open the next pack; equal contents exercise the per-pack de-duplication)", "post-state": "the buffer invariant is re-established (inductive step)", "zstd": "lossless stub: token / n+1 / compress_bound(n) frame lengths"}
 
     def path(self, e):
         raw = self.raw
@@ -216,7 +216,7 @@ class PackStep(Instance):
         S = lambda b: VecObj([Int(8, 0, x) for x in b], "String")
         pend = [VecObj([Int(8, 0, 100 + (j % 100)), Int(8, 0, j // 100 + 7)]) for j in range(npend)]
         pend_ids = [Int(32, 0, first_id + j) for j in range(npend)]
-        nnew = 1 + e.choose(2, "nnew1")
+        nnew = 1 + e.choose(3, "nnew1")
         segs, datas = [], []
         for j in range(nnew):
             d = e.sym_bytes(f"seg{j}", 2, among=[0, 1, 2, 3])
@@ -290,6 +290,41 @@ class PackStep(Instance):
                 e.prove(e.eq_bytes(gb, txt), "fmt:pack_addressing", f"entry {pos} of pack {P} is not the delta with id {i}")
             elif raw:
                 e.prove(e.eq_bytes(gb, datas_sorted_first(e, segs, datas)), "fmt:pack_addressing", f"entry {pos} of pack {P} is not the new segment with id {i}")
+        # segments after the pack boundary go to the next (open) pack: fresh consecutive ids, re-used only for identical content
+        F0 = first_id + npend
+        ids = [e.field(rg, "SegmentRegistration", "in_group_id") for rg in regs]
+        for j in range(1, nnew):
+            e.prove(ids[j].conc(), "fmt:pack_registration", "symbolic in-group id")
+            same0 = e.branch(e.eq_bytes(datas[j], datas[0]))
+            lo_ok = ids[j].v >= F0 + 1 or (same0 and ids[j].v == F0)
+            e.prove(lo_ok and ids[j].v <= F0 + j, "fmt:pack_dedup", f"segment {j} after the pack boundary got in-group id {ids[j].v}: not an entry of the open pack (ids {F0 + 1}..{F0 + j})")
+            for l in range(1, j):
+                eq = e.branch(e.eq_bytes(datas[j], datas[l]))
+                if ids[j].v == ids[l].v:
+                    e.prove(eq, "fmt:pack_dedup", f"segments {l} and {j} share in-group id {ids[j].v} although their contents differ")
+                    e.witness("dedup_in_open_pack")
+        # inductive step: the post-state satisfies the buffer invariant again
+        post = bc.v
+        SG = "agc_compressor.rs:SegmentGroupBuffer"
+        pd = e.field(post, SG, "pending_deltas").e; pi = e.field(post, SG, "pending_delta_ids").e
+        e.prove(len(pd) == len(pi), "fmt:pack_invariant", f"after the call {len(pd)} pending deltas but {len(pi)} pending ids")
+        e.prove(len(pd) < PACK, "fmt:pack_invariant", "a full pack is left pending")
+        for i_, x in enumerate(pi):
+            e.prove(x.conc() and x.v == F0 + 1 + i_, "fmt:pack_invariant", f"pending id #{i_} is {x.v if x.conc() else '?'}, the open pack starts at id {F0 + 1}")
+        sw = e.field(post, SG, "segments_written")
+        e.prove(sw.conc() and sw.v == F0 + 1 + len(pd), "fmt:pack_invariant", f"segments_written={sw.v if sw.conc() else '?'} after ids up to {F0 + len(pd)} were handed out")
+        e.prove(len(e.field(post, SG, "segments").e) == 0, "fmt:pack_invariant", "segments not consumed")
+        if raw:
+            e.prove(e.field(post, SG, "raw_placeholder_written") is True, "fmt:pack_invariant", "raw_placeholder_written not set after pack 0 was written")
+        # every id registered in the open pack addresses the pending entry holding that segment's delta
+        for j in range(1, nnew):
+            if ids[j].v >= F0 + 1:
+                ent = e.vec_items(pd[ids[j].v - F0 - 1])
+                if raw:
+                    e.prove(e.eq_bytes(ent, datas[j]), "fmt:pack_dedup", f"pending entry for id {ids[j].v} is not segment {j}'s data")
+                else:
+                    dec = e.call_fn(CORE, "LZDiff::decode", [Ref(Cell(lz_opt.f[0])), e.slice_of(ent)])
+                    e.prove(e.eq_bytes(e.vec_items(dec), datas[j]), "fmt:pack_dedup", f"pending delta for id {ids[j].v} does not decode to segment {j}'s data")
         return None
 
     def classify_panic(self, e, ex):
@@ -299,6 +334,34 @@ class PackStep(Instance):
         n = 1 + inp.get("nnew1", 0)
         return "pack_step", {"raw": self.raw, "P": inp.get("P", 0), "segs": [inp.get(f"seg{j}", [0, 1]) for j in range(n)]}
 
+    def confirm(self, viol, outs):
+        if Instance.confirm(self, viol, outs):
+            return True
+        # registration ids, judged on the native output by the same rule (ids of the open pack: fresh, consecutive, shared only by equal contents)
+        cmd, case = self.native(viol["inputs"])
+        raw, P, segs = case["raw"], case["P"], case["segs"]
+        F0 = (1 if (raw and P == 0) else (PACK if raw else P * PACK + 1)) + ((PACK - 1 if (raw and P == 0) else PACK) - 1)
+        for o in outs.values():
+            regs = o.get("registrations") or []
+            if len(regs) != len(segs):
+                return True
+            ids = [r[1] for r in regs]
+            if ids[0] != F0:
+                return True
+            for j in range(1, len(ids)):
+                if not ((F0 + 1 <= ids[j] <= F0 + j) or (ids[j] == F0 and segs[j] == segs[0])):
+                    return True
+                for l in range(1, j):
+                    if ids[j] == ids[l] and segs[j] != segs[l]:
+                        return True
+            # representation invariant of the real buffer after the step (read through the flush_pack_step_state hook)
+            st = o.get("state") or {}
+            pi = st.get("pending_ids", [])
+            if len(pi) != st.get("pending") or pi != list(range(F0 + 1, F0 + 1 + len(pi))) or st.get("segments_written") != F0 + 1 + len(pi) \
+               or st.get("segments_left") != 0 or (raw and not st.get("placeholder")):
+                return True
+        return False
+
 
 def datas_sorted_first(e, segs, datas):
     """segments are processed in sorted order (sample, contig, part): part numbers ascend with j, so the first is datas[0]"""
@@ -307,3 +370,109 @@ def datas_sorted_first(e, segs, datas):
 
 _reg(PackStep("pack_raw", True)); _reg(PackStep("pack_lz", False))
 QUICK += ["pack_raw", "pack_lz"]; THOROUGH += ["pack_raw", "pack_lz"]
+
+
+# ---------------------------------------------------------------------------------------------------------------
+# (f) collection-details parts are self-contained: the in-group-id predictor starts empty in EVERY metadata batch.
+#     Independent statement of the v3 descriptor coding; the real serialiser's second batch is decoded by that rule.
+class DetailsFormat(Instance):
+    crates = ("ragc-common",)
+    required_witnesses = ("second_batch", "same_group_across_batches")
+
+    def __init__(self, name, nseg):
+        Instance.__init__(self, name)
+        self.nseg = nseg
+        self.bounds = {"collection": "2 samples, one per metadata batch; batch 0: 1 contig with 2 segments in group 16; batch 1: 1 contig with 1.." + str(nseg) + " segments",
+                       "batch 1 descriptors": "group in {16,17} symbolic, in_group_id symbolic <= 300, orientation symbolic, raw_length symbolic u16",
+                       "oracle": "format rule restated here: per batch an empty predictor table; code = id (no prediction) | 0 | 1 (= prediction+1) | zigzag(id, prediction+1)+1; length = zigzag(len, segment_size+k)"}
+
+    def path(self, e):
+        from harness.C03 import mk_collection
+        from mirsym.models import ite_int
+        ns = 1 + e.choose(self.nseg, "ns1")
+        b0 = [e.struct("SegmentDesc", group_id=Int(32, 0, 16), in_group_id=e.sym_int("a0", 32, hi=300), is_rev_comp=False, raw_length=Int(32, 0, 1021)),
+              e.struct("SegmentDesc", group_id=Int(32, 0, 17), in_group_id=e.sym_int("a1", 32, hi=300), is_rev_comp=False, raw_length=Int(32, 0, 1021))]
+        segs = []
+        for i in range(ns):
+            segs.append((e.sym_int(f"g{i}", 32, among=[16, 17]), e.sym_int(f"i{i}", 32, hi=300), e.sym_bool(f"r{i}"), e.sym_int(f"l{i}", 32, hi=65535)))
+        b1 = [e.struct("SegmentDesc", group_id=g, in_group_id=i_, is_rev_comp=r, raw_length=l) for g, i_, r, l in segs]
+        c8 = lambda s_: [Int(8, 0, b) for b in s_]
+        src = mk_collection(e, [(c8(b"s0"), [(c8(b"c"), b0)]), (c8(b"s1"), [(c8(b"c"), b1)])], 1000, 21)
+        e.call_fn(COMMON, "CollectionV3::serialize_contig_details", [Ref(src), Int(64, 0, 0), Int(64, 0, 1)])
+        v5 = e.call_fn(COMMON, "CollectionV3::serialize_contig_details", [Ref(src), Int(64, 0, 1), Int(64, 0, 2)])
+        e.witness("second_batch")
+        streams = [e.vec_items(x) for x in v5.f]
+
+        def decode_all(items, what):
+            ptr = Cell(Slice(Cell(VecObj(list(items))), (), 0, len(items)))
+            out = []
+            while ptr.v.hi - ptr.v.lo > 0:
+                r = e.call_fn(COMMON, "CollectionVarInt::decode", [Ref(ptr)])
+                e.prove(r.variant == 0, "fmt:details", f"stream {what} of the second batch is not a sequence of prefix varints")
+                out.append(r.f[0])
+            return out
+        counts = decode_all(streams[0], "counts")
+        e.prove(len(counts) == 3 and all(x.conc() for x in counts) and [x.v for x in counts] == [1, 1, ns], "fmt:details", "counts stream of batch 1 is not [1 sample, 1 contig, n segments]")
+        G, I, L, R = (decode_all(streams[k], nm) for k, nm in ((1, "group ids"), (2, "in-group ids"), (3, "lengths"), (4, "orientation")))
+        e.prove(len(G) == ns and len(I) == ns and len(L) == ns and len(R) == ns, "fmt:details", "descriptor streams of batch 1 do not hold one value per segment")
+        # format rule with a predictor table that is EMPTY at the start of this batch
+        pred = {16: Int(32, 1, -1 & 0xFFFFFFFF), 17: Int(32, 1, -1 & 0xFFFFFFFF)}
+        zz = lambda x, p: ite_int(e.binop("Lt", x, p), e.binop("Sub", e.binop("Mul", Int(32, 0, 2), e.binop("Sub", p, x)), Int(32, 0, 1)),
+                                  ite_int(e.binop("Lt", x, e.binop("Mul", Int(32, 0, 2), p)), e.binop("Mul", Int(32, 0, 2), e.binop("Sub", x, p)), x))
+        for j, (g, i_, r, l) in enumerate(segs):
+            e.prove(e.binop("Eq", G[j], g), "fmt:details", f"segment {j}: group id is not stored verbatim")
+            e.prove(e.binop("Eq", R[j], ite_int(r, Int(32, 0, 1), Int(32, 0, 0)) if not isinstance(r, bool) else Int(32, 0, int(r))), "fmt:details", f"segment {j}: orientation flag")
+            e.prove(e.binop("Eq", L[j], zz(l, Int(32, 0, 1021))), "fmt:details", f"segment {j}: raw length is not zigzag(len, segment_size + k)")
+            gv = 16 if e.branch(e.binop("Eq", g, Int(32, 0, 16))) else 17
+            if gv == 16 or gv == 17:
+                e.witness("same_group_across_batches")
+            prev = pred[gv]                       # Python-level table: prev is -1 (None) or a symbolic id
+            if prev is None or (isinstance(prev, Int) and prev.conc() and prev.s and prev.sval() == -1):
+                exp = i_
+            else:
+                p1 = e.binop("Add", prev, Int(32, 0, 1))
+                exp = ite_int(e.binop("Eq", i_, Int(32, 0, 0)), Int(32, 0, 0), ite_int(e.binop("Eq", i_, p1), Int(32, 0, 1), e.binop("Add", zz(i_, p1), Int(32, 0, 1))))
+            e.prove(e.binop("Eq", I[j], exp), "fmt:details_predictor", f"segment {j} of the second batch: in-group-id code does not follow the per-batch predictor rule (a batch part must decode on its own)")
+            # update rule: raise the predictor only when the id grows and is > 0
+            if prev is None or (isinstance(prev, Int) and prev.conc() and prev.s and prev.sval() == -1):
+                if e.branch(e.binop("Gt", i_, Int(32, 0, 0))):
+                    pred[gv] = i_
+            else:
+                if e.branch(b_and(e.binop("Gt", i_, prev), e.binop("Gt", i_, Int(32, 0, 0)))):
+                    pred[gv] = i_
+        return None
+
+    def classify_panic(self, e, ex):
+        return f"fmt:panic:{ex.where.split('::')[-1]}:{ex.kind}", str(ex)
+
+    def native(self, inp):
+        ns = 1 + inp.get("ns1", 0)
+        return "details_batches", {"b0": [[16, inp.get("a0", 0), False, 1021], [17, inp.get("a1", 0), False, 1021]],
+                                   "b1": [[inp.get(f"g{i}", 16), inp.get(f"i{i}", 0), bool(inp.get(f"r{i}", False)), inp.get(f"l{i}", 0)] for i in range(ns)]}
+
+    def confirm(self, viol, outs):
+        # the native build serialises the same two batches; the second part is decoded here by the restated rule
+        def zz(x, p):
+            return 2 * (p - x) - 1 if x < p else (2 * (x - p) if x < 2 * p else x)
+        cmd, case = self.native(viol["inputs"])
+        for o in outs.values():
+            if "panic" in o or "crash" in o:
+                return True
+            st = o.get("batch1")
+            if st is None:
+                return False
+            pred = {}
+            expI, expL = [], []
+            for g, i_, r, l in case["b1"]:
+                prev = pred.get(g, -1)
+                expI.append(i_ if prev == -1 else (0 if i_ == 0 else (1 if i_ == prev + 1 else zz(i_, prev + 1) + 1)))
+                expL.append(zz(l, 1021))
+                if i_ > prev and i_ > 0:
+                    pred[g] = i_
+            if st.get("in_group") != expI or st.get("len") != expL or st.get("group") != [x[0] for x in case["b1"]]:
+                return True
+        return False
+
+
+_reg(DetailsFormat("details_batch2", 1)); _reg(DetailsFormat("T_details_batch2", 2))
+QUICK += ["details_batch2"]; THOROUGH += ["T_details_batch2"]
